@@ -277,6 +277,10 @@ def c10():
         obs.append(ob("c10c::compact_block_body_roundtrip", tiers, 8, "CompactBlockBody decodes from its own encoding to an equal value at every protocol version: counts written and read in the same order, every list read with its own count",
                       "%d full outputs (empty range proofs) / %d full kernels / %d short ids, contents symbolic, versions {1,2,3,1000}" % (no, nk, ni),
                       env={"VH_NOUT": no, "VH_NK": nk, "VH_NIDS": ni}, tag="_%d_%d_%d" % (no, nk, ni), est=200, loops={"memcmp": 120, "memcpy": 700, "memset": 700, "read_empty_bytes": 18, "copy_from_slice": 700, "extend_desugared": 3, "IteratingReader": 3}, unwindset={}))
+    for no, nk, ni, tiers in [(0, 1, 0, "qt"), (1, 0, 0, "qt"), (1, 1, 0, "t"), (0, 1, 1, "t"), (1, 1, 1, "t")]:
+        obs.append(ob("c10c::compact_block_body_read_counts", tiers, 10, "CompactBlockBody::read (reader side only): a buffer announcing these counts followed by arbitrary content of the matching length, whenever accepted, yields lists of exactly the announced lengths - every list is read with its own count, in the written order - and at v1 consumes exactly the buffer",
+                      "%d full outputs (empty range proofs) / %d full kernels / %d short ids announced, all content bytes symbolic, versions {1,2,3,1000}" % (no, nk, ni),
+                      env={"VH_NOUT": no, "VH_NK": nk, "VH_NIDS": ni}, tag="_%d_%d_%d" % (no, nk, ni), est=200, loops={"memcmp": 120, "memcpy": 700, "memset": 700, "read_empty_bytes": 18, "copy_from_slice": 700, "extend_desugared": 3, "IteratingReader": 3, "compact_block_body_read_counts": 26}, unwindset={}))
     for h, L, what in [
         ("ping_canonical", 16, "p2p Ping"), ("pong_canonical", 16, "p2p Pong"), ("ban_reason_canonical", 4, "p2p BanReason"),
 ("txhashset_request_canonical", 40, "p2p TxHashSetRequest"),
@@ -309,8 +313,8 @@ def c12():
         ob("c12::cut_through_err_iff_duplicate_2_2", "qt", 6, "Err(CutThrough) iff a duplicate survives", "2 + 2", est=500, cap_s=750, unwindset={"memcmp.0": 40}, mem_est_gb=13),
         ob("c12::aggregate_two_independent", "x", 6, "[ATTEMPT: did not finish in 3600 s] aggregate([a, b]) of two transactions that do not spend each other: kernels = union, inputs = union, offset = sum of offsets (model scalar group), independent of operand order",
            "two 1-input / 0-output / 1-kernel transactions with symbolic commitments, excesses, fees and offsets", est=900, cap_s=3600, loops={"memcmp": 70, "zeroize": 36, "memcpy": 120}, replay="model", mem_est_gb=14),
-        ob("c12::deaggregate_known_subset_kernel_only", "qt", 3, "deaggregate(mk, [t]) for kernel-only transactions: the remainder holds exactly the kernel that is not t's, nothing else, and its offset is mk's offset minus t's in the (model) scalar group - also when either offset is zero",
-           "mk with 2 kernels in either order, t with one of them; symbolic excesses, both offsets any model scalar", est=600, cap_s=660, loops={"memcmp": 70, "zeroize": 36, "memcpy": 120, "insertion_sort": 4}, replay="model", mem_est_gb=12),
+        ob("c12::deaggregate_known_subset_kernel_only", "x", 3, "[ATTEMPT: symbolic execution did not finish in 660 s at unwind 3 or 6] deaggregate(mk, [t]) for kernel-only transactions: the remainder holds exactly the kernel that is not t's, nothing else, and its offset is mk's offset minus t's in the (model) scalar group - also when either offset is zero",
+           "mk with 2 kernels in either order, t with one of them; symbolic excesses, both offsets any model scalar", est=600, cap_s=5400, loops={"memcmp": 70, "zeroize": 36, "memcpy": 120, "insertion_sort": 4}, replay="model", mem_est_gb=12),
         ob("c12::cut_through_3_3", "t", 8, "same", "3 inputs + 3 outputs", est=3000, cap_s=5400, unwindset={"memcmp.0": 40}, mem_est_gb=20),
     ]
     return {
@@ -392,7 +396,7 @@ def c14():
     obs = [
         ob("c14::tx_fee_gate_inputs", "qt", 6, "Transaction::{weight, fee, shifted_fee, accept_fee} - the quantities TransactionPool::is_acceptable compares - follow their definitions",
            "1-in/0-out/1-kernel tx, fee < 2^40, shift < 16, base < 2^40", est=60, loops={"memcmp": 70, "zeroize": 36}),
-        ob("c14::add_to_pool_gate_sequencing", "qt", 3, "TransactionPool::add_to_pool (empty pools, one transaction; chain, adapter and standalone validation answer arbitrarily): admitted ONLY IF the shifted fee reaches weight * accept_fee_base, standalone validation as a transaction (weight limit included) ran and accepted, lock height / coinbase maturity / utxo checks were made against the chain and passed, the pool aggregate validated, and an NRD kernel is enabled and past header version 4; stem goes to the stempool only unless the adapter refuses; a refusal leaves the public pool empty and announces nothing; below the fee floor the refusal is LowFeeTransaction before any validation",
+        ob("c14::add_to_pool_gate_sequencing", "x", 3, "[ATTEMPT: symbolic execution did not finish in 660 s at unwind 3 or 6] TransactionPool::add_to_pool (empty pools, one transaction; chain, adapter and standalone validation answer arbitrarily): admitted ONLY IF the shifted fee reaches weight * accept_fee_base, standalone validation as a transaction (weight limit included) ran and accepted, lock height / coinbase maturity / utxo checks were made against the chain and passed, the pool aggregate validated, and an NRD kernel is enabled and past header version 4; stem goes to the stempool only unless the adapter refuses; a refusal leaves the public pool empty and announces nothing; below the fee floor the refusal is LowFeeTransaction before any validation",
            "1-in/0-out/1-kernel tx (plain / height-locked / NRD), fee < 2^40, shift < 16, base < 2^40, stem or fluff, every header version, NRD flag, symbolic verdicts of the chain, the adapter and Transaction::validate (tagging stub; the validation itself is C01)", est=400,
            loops={"memcmp": 70, "zeroize": 36, "memcpy": 120}, replay="model", mem_est_gb=12),
         ob("c14::pool_refuses_low_fee", "t", 6, "TransactionPool::add_to_pool refuses (LowFeeTransaction) every tx whose shifted fee is below weight*accept_fee_base; weight / shifted_fee / accept_fee formulas",
@@ -425,7 +429,7 @@ def c19():
            "all field values, every unknown type byte, 3 junk bytes, Mainnet, protocol version 1; EVERY fragmentation", est=2000, cap_s=3600, env={"VH_FRAG": 0}, tag="_fall",
            loops={"Frag": 18, "read_exact": 18, "default_read_exact": 18, "memcpy": 40, "memcmp": 40, "extend": 40, "write_all": 4}, mem_est_gb=12),
         ob("c19::read_message_type_mismatch_keeps_stream", "qt", 12, "read_message::<Ping> on a frame with the wrong magic, of another known type, or announcing an empty body: refused after consuming exactly the 11 header bytes",
-           "every magic and type byte, announced length 0, 11 arbitrary following bytes, all chain types, every fragmentation", est=120, env={"VH_FRAG": 0}, loops={"Frag": 24, "read_exact": 24, "default_read_exact": 24, "memcpy": 40, "memcmp": 40}),
+           "every magic and type byte, announced length 0, 11 arbitrary following bytes, all chain types; every fragmentation in which at most 2 reads come back short", est=120, env={"VH_FRAG": 2}, loops={"Frag": 13, "read_exact": 5, "default_read_exact": 5, "memcpy": 40, "memcmp": 40}),
         ob("c19::codec_ping_then_unknown_then_pong", "x", 10, "[ATTEMPT] the streaming Codec (reader of every established connection) decodes a Ping frame, a frame of unknown type and a Pong frame arriving in arbitrary fragments as Ping, Unknown(type), Pong with the written values, consuming exactly the stream",
            "all field values, every unknown type byte, 2 junk bytes, Mainnet, every fragmentation of the 67-byte stream; socket replaced by a fragmenting byte source (E8)", est=1500, cap_s=3600,
            loops={"sock": 18, "read_exact": 18, "default_read_exact": 18, "memcpy": 40, "memcmp": 40, "read_inner": 20, "put": 20}, mem_est_gb=16, replay="model"),
@@ -555,10 +559,10 @@ def c20():
            "every amount, path of depth 0..=4 with any child numbers, both switch modes, any two different model wallets, any single corrupted message byte", est=200, loops=L, replay="model"),
         ob("c20::legacy_proof_builder_rewind_message", "qt", 8, "LegacyProofBuilder: same for the pre-HF1 message layout (depth-3 paths, regular switch commitments)",
            "every amount, depth-3 path with any child numbers, any two different model wallets, any single corrupted message byte", est=200, loops=L, replay="model", allow_unsat=["depth 4", "depth 0"]),
-        ob("c20::blinding_factor_split", "x", 6, "[ATTEMPT: symbolic execution did not finish in 660 s] BlindingFactor::split over the model scalar group: the second part is whole - first part, and the parts sum to the whole",
-           "every pair of model scalars", est=300, loops=L2, replay="model"),
-        ob("c20::blinding_factor_add", "x", 6, "[ATTEMPT: symbolic execution did not finish in 660 s] BlindingFactor::add over the model scalar group: a + b == b + a == the group sum",
-           "every pair of model scalars", est=300, loops=L2, replay="model"),
+        ob("c20::blinding_factor_split", "qt", 5, "BlindingFactor::split over the scalar group (E7 model under Kani, real libsecp256k1 in the native replay): the second part is whole - first part",
+           "every pair of distinct non-zero model scalars", est=300, loops={"zeroize": 36, "memcmp": 70}),
+        ob("c20::blinding_factor_add", "qt", 5, "BlindingFactor::add: a + b == b + a == the group sum; zero is the identity",
+           "every pair of model scalars whose sum is not zero (the real library refuses a zero sum)", est=300, loops={"zeroize": 36, "memcmp": 70}),
     ]
     return {
         "obligations": obs,
